@@ -2,6 +2,7 @@ package checks
 
 import (
 	"encoding/json"
+	"fmt"
 	"time"
 
 	"verif/bt"
@@ -121,10 +122,61 @@ func runC14(c *fw.Ctx) {
 	if c.Thorough() {
 		plans = []plan{{"btree", 7}, {"mem", 5}, {"disk", 4}}
 	}
+	// catalogue of modification lists: every ordered pair and triple over {create existing, create new, drop existing,
+	// drop unknown, update existing, update unknown, drop f, create f again} - all-or-nothing and "exactly the named
+	// families" must hold for every list, whatever position fails and whichever family a later element re-uses
+	mv := func(n int32) *bt.GC { return &bt.GC{Kind: "maxver", N: n} }
+	elems := []bt.Mod{{ID: "g", Op: "create", GC: mv(7)}, {ID: "h", Op: "create", GC: mv(2)}, {ID: "g", Op: "drop"}, {ID: "nofam", Op: "drop"},
+		{ID: "g", Op: "update", GC: mv(5)}, {ID: "nofam", Op: "update", GC: mv(1)}, {ID: "f", Op: "drop"}, {ID: "f", Op: "create", GC: mv(4)}, {ID: "h", Op: "update", GC: mv(9)}, {ID: "h", Op: "drop"}}
+	var lists [][]bt.Mod
+	for _, a := range elems {
+		for _, b := range elems {
+			lists = append(lists, []bt.Mod{a, b})
+			for _, d := range elems {
+				lists = append(lists, []bt.Mod{a, b, d})
+			}
+		}
+	}
 	for _, p := range plans {
+		p := p
+		var item int64
 		b := &btSeq{ID: "C14", Engine: p.engine, Alphabet: alpha, Depth: p.depth, Dedup: true, Tag: c14Tag}
+		// from the populated table (create + rows in f and g): state reached by the first three requests of the alphabet
+		base := []bt.Op{alpha[0], alpha[1], alpha[3]}
+		for _, l := range lists {
+			item++
+			if !c.Mine(item) {
+				continue
+			}
+			if c.Expired() {
+				c.Incomplete("time budget reached in the modification-list catalogue")
+				break
+			}
+			ops := append(append([]bt.Op(nil), base...), bt.Op{Kind: "ModifyFamilies", Table: tblT, Mods: l},
+				bt.Op{Kind: "MutateRow", Table: tblT, Key: []byte("z"), Muts: []bt.Mut{mset("g", "c", 1000, "after"), mset("f", "c", 1000, "after")}})
+			m, cl, at, hh := runSeq(c, p.engine, nil, ops, true)
+			c.Eval(1)
+			c.Trace(1)
+			c.Trans(int64(len(ops)))
+			if m != "" {
+				t := "setup"
+				if at >= 0 {
+					t = c14Tag(&ops[at])
+				}
+				sc := seqCase{Engine: p.engine, Ops: ops}
+				c.Violate(fmt.Sprintf("C14:%s:%s:%s", p.engine, cl, t), m+"\n  sequence: "+bt.OpsString(ops), sc, func() string {
+					s, _ := replaySeq(c, "C14", sc, c14Tag)
+					return s
+				})
+				continue
+			}
+			if cl != "ambiguous" {
+				c.State(hh)
+			}
+		}
 		b.Run(c)
 		c.Bound(p.engine+"_depth", p.depth)
 	}
+	c.Bound("modification_lists", len(lists))
 	c.Bound("alphabet", len(alpha))
 }
